@@ -7,6 +7,12 @@ VERIF = os.path.dirname(os.path.dirname(os.path.abspath(__file__)))
 
 # property -> (technique, level text, level note, design ref)
 CHECKS = {
+    "C03": (
+        "abstract interpretation of every decoder over a linear-form/term domain with Fourier-Motzkin entailment (span bounds on every path), span contracts for many-path helpers, affine frame analysis of scan_node (return-the-root, re-basing in bounds), attach-site pairing census, constructor binding of the root",
+        "Decides: the root is Node('', data, '', 0, len(data)); scan_node returns the root; every children-list store in the package is paired with the child's parent pointer; iteration is pre-order; for every Node a shipped decoder returns on every path 0 <= start <= end <= len(data), and for every child a decoder attaches itself 0 <= start <= end <= len(parent value); Node.original slices the parent's value. 'Every node appears exactly once' across activations follows from freshness of hits (C09-R3) and is not re-decided here.",
+        "Trusted: regex match/group span axioms, length facts of bytes methods, urlsplit layout, ntpath.normpath/splitext, pefile field signedness (listed in the evidence). Two recorded known findings in find_powershell_strings (pinned by the unedited test-suite).",
+        "DESIGN.md 2.4, 3/C03",
+    ),
     "C04": (
         "affine abstract interpretation (frame analysis) of scan_node's hit loop with symbolic spans; truth-table equivalence of the decoded/context test; effect summaries of Node.shift / shift_nodes / Node.original",
         "For any registry: at every attach site the kept hit's span is (s - A(NODE), e - A(NODE)) with A(NODE) the sum of the starts of the open contexts; pops subtract exactly the popped context's start; only length-preserving hits become contexts. This is the whole re-basing mechanism the statement is about; the decoders' own (start,end) are C03/C13-C16.",
